@@ -1196,6 +1196,9 @@ def run_writes(chk, tier):
                 kdtype = stores[k].dtype if req['raw'] else numpy.dtype('uint8' if kim.get('lut') else 'int64')
                 fits = kdtype == data.dtype and len(basis_shape) == len(req['region']) and all(
                     (x[1] if x[1] is not None else -1) <= n and x[0] < n for x, n in zip(req['region'], basis_shape))
+                if req['start'] is None and req['sub'] is None:
+                    # without an address only a chunk of the whole image is defined
+                    fits = fits and [len(range(*slice(*x).indices(n))) for x, n in zip(req['region'], basis_shape)] == list(basis_shape)
                 if not req['raw'] and kim.get('lut'):
                     if impl[0] == 'ok' or changed:
                         fails.append(dict(case, msg=describe_put(req) + ': formatted write into a segment without inverse format was not refused'))
